@@ -343,7 +343,7 @@ fn check_cli(l: &mut Local, sp: &Spec, pins: &Option<J>) {
 }
 
 pub fn run(run: &mut Run, extra: &[String]) {
-    run.rule = "EXHAUSTIVE over the 21 Code variants (harness' own table of n, k and degree profile from EN 302 307-1 Tables 5a/5b): dimensions, 360-column shift law with q=(n-k)/360, column-degree profile, exact dual-diagonal parity part, own 4-cycle detector, Encoder::from_h accepts it with the linear-time (Staircase) encoder and encodes systematic codewords (3 messages quick / 24 thorough), girth 6 for normal 1/2 by own bounded BFS and by girth() (all codes in thorough), SHA-256 of the canonical entry list vs /verif/pinned/pins.json, and the same digest for the matrix printed by the real binary for the (rate, short) identifier; every configuration is non-trivial".into();
+    run.rule = "EXHAUSTIVE over the 21 Code variants (harness' own table of n, k and degree profile from EN 302 307-1 Tables 5a/5b): dimensions, 360-column shift law with q=(n-k)/360, column-degree profile, exact dual-diagonal parity part, own 4-cycle detector, Encoder::from_h accepts it with the linear-time (Staircase) encoder and encodes systematic codewords (3 messages quick / 24 thorough), girth 6 for normal 1/2 by own bounded BFS and by girth() (all codes in thorough), SHA-256 of the canonical entry list vs /verif/pinned/pins.json, the same digest for the matrix printed by the real binary for the (rate, short) identifier, and all 441 ordered pairs (a, b) of codes constructed back to back on one fresh thread (each result must equal the matrix built on a fresh thread); every configuration is non-trivial".into();
     run.exhaustive = Some(true);
     run.assumptions = vec![
         "k table and degree profiles are the harness author's transcription of EN 302 307-1; pins are regression digests taken from the repaired tree after all structural checks passed (they cannot by themselves prove equality with the printed annexes)".into(),
@@ -367,6 +367,34 @@ pub fn run(run: &mut Run, extra: &[String]) {
     }
     run.sub("codes", sp.len() as u64, |l, idx, rng| {
         check_code(l, &sp[idx as usize], &pins, tier, rng, &collected);
+    });
+    // call histories: h() of one code directly after h() of another one on the SAME thread must still give
+    // the matrix it gives on a fresh thread (state surviving between calls, e.g. a cache keyed too coarsely)
+    let reference: Vec<SparseMatrix> = sp.iter().map(|s| { let c = s.code; std::thread::spawn(move || c.h()).join().expect("h()") }).collect();
+    let npairs = (sp.len() * sp.len()) as u64;
+    run.sub("call-histories-ordered-pairs", npairs, |l, idx, _rng| {
+        let a = idx as usize / sp.len();
+        let b = idx as usize % sp.len();
+        let (ca, cb) = (sp[a].code, sp[b].code);
+        l.eval();
+        // a fresh thread per pair, so that nothing but the first call precedes the second
+        let res = std::thread::spawn(move || guard(move || { let first = ca.h(); let second = cb.h(); (first, second) })).join();
+        match res {
+            Ok(Ok((first, second))) => {
+                if first != reference[a] || second != reference[b] {
+                    l.violation(
+                        "h() depends on which code was constructed before it on the same thread",
+                        J::obj().set("first_call", sp[a].name).set("second_call", sp[b].name).set("second_result", format!("{} x {}", second.num_rows(), second.num_cols())).set("expected", format!("{} x {}", reference[b].num_rows(), reference[b].num_cols())).set("first_result_ok", first == reference[a]),
+                    );
+                } else if a != b {
+                    let mut d = Dig::new();
+                    d.s("pair").u(a as u64).u(b as u64);
+                    l.nt(d.get());
+                }
+            }
+            Ok(Err(p)) => l.violation(format!("h() panicked in a call history: {}", panic_class(&p)), J::obj().set("first_call", sp[a].name).set("second_call", sp[b].name).set("panic", p)),
+            Err(_) => l.inconclusive("history thread could not be joined".to_string()),
+        }
     });
     if std::path::Path::new(BIN).exists() {
         run.sub("cli-identifiers", sp.len() as u64, |l, idx, _rng| {
